@@ -7,6 +7,8 @@ the next transport operations are writes whose concatenation the Spec decoder re
 FIN=1 opcode=10 MASK=1 payload=ping payload, and no read happens before them; no other write occurs except
 the reply to a close frame.
 """
+import itertools
+
 import common
 import rx
 from rx import F
@@ -132,6 +134,32 @@ def run(ctx):
         inp = {"op": line if len(line) < 300 else line[:300] + "...", "frames": [f.desc() for f in frames], "api": api}
         timeline_check(ctx, inp, frames, sock, key)
 
+
+    # the ping arrives in pieces with receive timeouts in between (one, two, or three interruptions, also inside the same
+    # header / payload stage); the caller repeats the call: still exactly one pong, right after the ping's last byte
+    sessions, meta = [], []
+    for frames in ([F(9, b"0123456789"), F(1, b"h")], [F(9, b"ab", mask=b"mask"), F(9, b""), F(2, b"z")],
+                   [F(2, b"x", fin=0), F(9, b"q" * 30, form=16), F(0, b"y")]):
+        stream = b"".join(f.enc() for f in frames)
+        n = len(stream)
+        cuts = [(a,) for a in range(1, n)] + list(itertools.combinations(range(1, n), 2))
+        trip = list(itertools.combinations(range(1, min(n, 18)), 3))
+        cuts += trip if ctx.thorough() else rnd.sample(trip, 60)
+        for cs in cuts:
+            pts = [0] + list(cs) + [n]
+            ev = []
+            for a, b in zip(pts, pts[1:]):
+                if ev:
+                    ev.append(("timeout",))
+                ev.append(("chunk", stream[a:b]))
+            api = rnd.choice(["recv", "recvdata:0", "rdf:0"])
+            sessions.append(({"keys": [key] * 6, "tail": "eof", "to": 1000}, ev, [api] * (len(frames) + 1 + len(cs))))
+            meta.append((frames, api))
+    res = rx.run_sessions(ctx, "session:ping-interrupted", sessions)
+    for (frames, api), (impl, model, ws, sock, line) in zip(meta, res):
+        ctx.case(key=line, nontrivial=True, cls=f"interrupted:api={api}:timeouts={line.count('T') if False else impl.count('X:TIMEOUT')}")
+        inp = {"op": line if len(line) < 300 else line[:300] + "...", "frames": [f.desc() for f in frames], "api": api}
+        timeline_check(ctx, inp, frames, sock, key)
 
     # the pong meets a full send buffer (EAGAIN at some write attempts; `_socket.send` waits and retries): still exactly one
     # pong per ping.  Real runs + the timeline oracle only (the model's transport has no would-block)
